@@ -403,3 +403,93 @@ func H_C20_Streams() {
 	rt.Assert("C20.streams-query-writes-nothing", se.MS.TotalWrites() == writes)
 	_ = n
 }
+
+// H_C20_Interleaved: four stored items of which the first and the third match the filter and the
+// second and fourth do not (symbolic ids, concrete pattern), walked by key and by offset with limit 1..2:
+// non-matching items in between must not shift offsets or produce duplicates.
+func H_C20_Interleaved() {
+	now := AnyBlockTime("now")
+	ids := [4]uint64{rt.U64("id0"), rt.U64("id1"), rt.U64("id2"), rt.U64("id3")}
+	rt.Assume(rt.And(rt.And(ids[0] >= 1, ids[0] < ids[1]), rt.And(ids[1] < ids[2], ids[2] < ids[3])))
+	mode := rt.Choose(2)
+	limit := uint64(1 + rt.Choose(2))
+	which := rt.Choose(3)
+	var got []uint64
+	var next []byte
+	offset := uint64(0)
+	done := false
+	page := func(pr *query.PageRequest) ([]uint64, []byte, error) { return nil, nil, nil }
+	switch which {
+	case 0: // purchase orders filtered by purchaser
+		ee := NewEntEnvOn(NewEnv(now, false), 1)
+		for i := 0; i < 4; i++ {
+			po := anyOrder("po"+string(rune('0'+i)), ids[i], Addr(i%2), enttypes.StatusRaised, 0, uint64(now.Unix()))
+			_ = ee.K.SetPurchaseOrder(ee.Ctx, po)
+		}
+		page = func(pr *query.PageRequest) ([]uint64, []byte, error) {
+			res, err := ee.K.EnterpriseUndPurchaseOrders(sdk.WrapSDKContext(ee.Ctx), &enttypes.QueryEnterpriseUndPurchaseOrdersRequest{Purchaser: Addr(0).String(), Pagination: pr})
+			if err != nil {
+				return nil, nil, err
+			}
+			var out []uint64
+			for _, x := range res.PurchaseOrders {
+				out = append(out, x.Id)
+			}
+			return out, res.Pagination.NextKey, nil
+		}
+	case 1: // WRKChains filtered by owner
+		we := NewWrkEnv(now)
+		for i := 0; i < 4; i++ {
+			_ = we.K.SetWrkChain(we.Ctx, wrktypes.WrkChain{WrkchainId: ids[i], Moniker: "m", Owner: Addr(i % 2).String(), Lastblock: rt.U64("last" + string(rune('0'+i)))})
+		}
+		page = func(pr *query.PageRequest) ([]uint64, []byte, error) {
+			res, err := we.K.WrkChainsFiltered(sdk.WrapSDKContext(we.Ctx), &wrktypes.QueryWrkChainsFilteredRequest{Owner: Addr(0).String(), Pagination: pr})
+			if err != nil {
+				return nil, nil, err
+			}
+			var out []uint64
+			for _, x := range res.Wrkchains {
+				out = append(out, x.WrkchainId)
+			}
+			return out, res.Pagination.NextKey, nil
+		}
+	default: // BEACONs filtered by owner
+		be := NewBeaconEnv(now)
+		for i := 0; i < 4; i++ {
+			_ = be.K.SetBeacon(be.Ctx, beacontypes.Beacon{BeaconId: ids[i], Moniker: "m", Name: "n", Owner: Addr(i % 2).String(), LastTimestampId: rt.U64("last" + string(rune('0'+i)))})
+		}
+		page = func(pr *query.PageRequest) ([]uint64, []byte, error) {
+			res, err := be.K.BeaconsFiltered(sdk.WrapSDKContext(be.Ctx), &beacontypes.QueryBeaconsFilteredRequest{Owner: Addr(0).String(), Pagination: pr})
+			if err != nil {
+				return nil, nil, err
+			}
+			var out []uint64
+			for _, x := range res.Beacons {
+				out = append(out, x.BeaconId)
+			}
+			return out, res.Pagination.NextKey, nil
+		}
+	}
+	for p := 0; p < 6 && !done; p++ {
+		pr := &query.PageRequest{Limit: limit}
+		if mode == 0 {
+			pr.Key = next
+		} else {
+			pr.Offset = offset
+		}
+		ids_, nk, err := page(pr)
+		rt.Assert("C20.interleaved-query-ok", err == nil)
+		if err != nil {
+			return
+		}
+		got = append(got, ids_...)
+		next = nk
+		offset += limit
+		if len(next) == 0 {
+			done = true
+		}
+	}
+	rt.Assert("C20.interleaved-walk-terminates", done)
+	rt.Assert("C20.interleaved-exactly-the-two-matches-in-order", len(got) == 2 && got[0] == ids[0] && got[1] == ids[2])
+	rt.Reach("end")
+}
